@@ -246,7 +246,17 @@ class SDict(dict):
     sym = None
 
 
+def is_symbolic_key(k):
+    return is_z3(k) or (isinstance(k, tuple) and any(is_symbolic_key(x) for x in k))
+
+
 def keq(a, b):
+    if isinstance(a, tuple) or isinstance(b, tuple):
+        if not (isinstance(a, tuple) and isinstance(b, tuple)) or len(a) != len(b):
+            return z3.BoolVal(False)
+        return z3.And([keq(x, y) for x, y in zip(a, b)] + [z3.BoolVal(True)])
+    if isinstance(a, str) or isinstance(b, str):
+        return z3.BoolVal(isinstance(a, str) and isinstance(b, str) and a == b)
     a, b = to_z3(a), to_z3(b)
     if a.sort() != b.sort():
         if is_num(a) and is_num(b):
